@@ -227,14 +227,31 @@ func newDuplex() *duplex {
 
 // ---------------------------------------------------------------- handshakes
 
+// impostorKey presents one key pair's public key but computes ECDH with
+// another private key: somebody who knows the paired peer's public key but not
+// its private key.
+type impostorKey struct {
+	pub  *btcec.PublicKey
+	real keychain.SingleKeyECDH
+}
+
+func (k *impostorKey) PubKey() *btcec.PublicKey { return k.pub }
+func (k *impostorKey) ECDH(p *btcec.PublicKey) ([32]byte, error) {
+	return k.real.ECDH(p)
+}
+
 // party describes one side of a handshake.
 type party struct {
-	local    int    // static key index
-	remote   int    // expected remote static key index (-1: none, XX)
-	secret   []byte // passphrase entropy
-	min, max byte
-	auth     []byte // responder's auth payload
-	ephTag   string
+	// impostorOf >= 0: present the public key of that static key while
+	// holding the private key of `local`.
+	impostorOf  int
+	hasImpostor bool
+	local       int    // static key index
+	remote      int    // expected remote static key index (-1: none, XX)
+	secret      []byte // passphrase entropy
+	min, max    byte
+	auth        []byte // responder's auth payload
+	ephTag      string
 }
 
 // partyResult is the view of one side after a handshake attempt.
@@ -263,7 +280,11 @@ func (p party) connData(res *partyResult) *mailbox.ConnData {
 	if p.remote >= 0 {
 		remote = staticKey(p.remote).PubKey()
 	}
-	return mailbox.NewConnData(ecdhKey(p.local), remote, p.secret, p.auth,
+	var key keychain.SingleKeyECDH = ecdhKey(p.local)
+	if p.hasImpostor {
+		key = &impostorKey{pub: staticKey(p.impostorOf).PubKey(), real: ecdhKey(p.local)}
+	}
+	return mailbox.NewConnData(key, remote, p.secret, p.auth,
 		func(k *btcec.PublicKey) error {
 			res.onRemote = append(res.onRemote, k.SerializeCompressed())
 			return nil
